@@ -54,14 +54,23 @@ Proof.
   exact E.
 Qed.
 
-Lemma combine_lt_W seed v : seed < W -> combine seed v < W.
+Lemma combine_lt_W p seed v : seed < W -> combine p seed v < W.
 Proof. apply combine_with_lt_W. Qed.
 
-Lemma combine_injective seed v1 v2 : v1 < W -> v2 < W -> combine seed v1 = combine seed v2 -> v1 = v2.
+Lemma combine_injective p seed v1 v2 : v1 < W -> v2 < W -> combine p seed v1 = combine p seed v2 -> v1 = v2.
 Proof. apply combine_with_injective. Qed.
+
+(* what `hp_ok` gives: only the two seed bounds are needed by the proofs below (every hash is a word); the bounds
+   on the magic number and on the shifts are about faithfulness to the C++ (a literal that is a std::size_t, no
+   undefined shift), no theorem depends on them *)
+Lemma hp_ok_seeds p : hp_ok p = true -> hp_tuple_seed p < W /\ hp_variant_seed p < W.
+Proof.
+  unfold hp_ok. intros H. repeat (apply andb_true_iff in H; destruct H as [H ?]).
+  split; apply N.ltb_lt; assumption.
+Qed.
 End Words.
 
-Arguments combine : simpl never.
+Arguments Hash.combine : simpl never.
 Arguments W : simpl never.
 
 (* ------------------------------------------------------------------ induction over nested values *)
@@ -91,11 +100,14 @@ End Ind.
 
 Section Proofs.
 Variable leaf : Type.
+Variable hp : hparams.
 Variable h : leaf -> N.
 Variables leqb lltb : leaf -> leaf -> bool.
+Hypothesis Hhp : hp_ok hp = true.
 Notation value := (value leaf).
-Notation hash := (hash leaf h).
-Notation fold_seed := (fold_seed leaf h).
+Notation hash := (hash leaf hp h).
+Notation fold_seed := (fold_seed leaf hp h).
+Notation combine := (combine hp).
 Notation veqb := (veqb leaf leqb).
 Notation vlt2 := (vlt2 leaf lltb).
 Notation vltb := (vltb leaf lltb).
@@ -113,12 +125,12 @@ Lemma hash_lt_W x : (hash x < W)%N.
 Proof.
   induction x using value_ind'; simpl.
   - apply N.mod_lt. discriminate.
-  - apply (fold_seed_lt_W l 0%N). reflexivity.
+  - apply (fold_seed_lt_W l (hp_tuple_seed hp)). apply (hp_ok_seeds hp Hhp).
   - apply combine_lt_W. exact IHx1.
-  - apply combine_lt_W. reflexivity.
+  - apply combine_lt_W. apply (hp_ok_seeds hp Hhp).
   - exact IHx.
-  - apply (fold_seed_lt_W l 0%N). reflexivity.
-  - reflexivity.
+  - apply (fold_seed_lt_W l (hp_tuple_seed hp)). apply (hp_ok_seeds hp Hhp).
+  - apply (hp_ok_seeds hp Hhp).
 Qed.
 
 Hypothesis Hleaf : leaf_ok.
@@ -136,11 +148,11 @@ Lemma hash_respects_eq x : forall y, veqb x y = true -> hash x = hash y.
 Proof.
   induction x using value_ind'; intros [b|m|c d|j w|w|m|]; simpl; try discriminate.
   - intros E. rewrite (leaf_hash_eq _ _ _ _ Hleaf _ _ E). reflexivity.
-  - intros E. apply (fold_seed_eq l H m 0%N E).
+  - intros E. apply (fold_seed_eq l H m (hp_tuple_seed hp) E).
   - intros E. apply andb_true_iff in E. destruct E as [E1 E2]. rewrite (IHx1 c E1), (IHx2 d E2). reflexivity.
   - intros E. apply andb_true_iff in E. destruct E as [_ E]. rewrite (IHx w E). reflexivity.
   - intros E. apply IHx, E.
-  - intros E. apply (fold_seed_eq l H m 0%N E).
+  - intros E. apply (fold_seed_eq l H m (hp_tuple_seed hp) E).
   - reflexivity.
 Qed.
 
@@ -372,9 +384,9 @@ Qed.
 Lemma fold_seed_app seed l r : fold_seed seed (l ++ r) = fold_seed (fold_seed seed l) r.
 Proof. unfold Hash.fold_seed. apply fold_left_app. Qed.
 
-Lemma hash_tuple_fold l : hash (VTuple l) = fold_seed 0%N l.
+Lemma hash_tuple_fold l : hash (VTuple l) = fold_seed (hp_tuple_seed hp) l.
 Proof. reflexivity. Qed.
-Lemma hash_obj_fold l : hash (VObj l) = fold_seed 0%N l.
+Lemma hash_obj_fold l : hash (VObj l) = fold_seed (hp_tuple_seed hp) l.
 Proof. reflexivity. Qed.
 
 (* changing the component at one position changes the running seed after that position *)
@@ -403,7 +415,7 @@ Lemma component_changes_running_seed l x y r : hash x <> hash y ->
     hash (VTuple (l ++ x :: r)) = fold_seed s1 r /\ hash (VTuple (l ++ y :: r)) = fold_seed s2 r /\
     hash (VObj (l ++ x :: r)) = fold_seed s1 r /\ hash (VObj (l ++ y :: r)) = fold_seed s2 r.
 Proof.
-  intros D. exists (fold_seed 0%N (l ++ [x])), (fold_seed 0%N (l ++ [y])).
+  intros D. exists (fold_seed (hp_tuple_seed hp) (l ++ [x])), (fold_seed (hp_tuple_seed hp) (l ++ [y])).
   split; [apply seed_after_component_differs, D|].
   rewrite !hash_tuple_fold, !hash_obj_fold.
   replace (l ++ x :: r) with ((l ++ [x]) ++ r) by (rewrite <- app_assoc; reflexivity).
@@ -412,9 +424,9 @@ Proof.
 Qed.
 
 (* ---------------- unordered_map: lookups see exactly the inserted keys *)
-Notation tfind := (tfind leaf h leqb).
-Notation tinsert := (tinsert leaf h leqb).
-Notation tbuild := (tbuild leaf h leqb).
+Notation tfind := (tfind leaf hp h leqb).
+Notation tinsert := (tinsert leaf hp h leqb).
+Notation tbuild := (tbuild leaf hp h leqb).
 Notation spec_lookup := (spec_lookup leaf leqb).
 
 Lemma find_ext' {B} (p q : B -> bool) l : (forall x, p x = q x) -> find p l = find q l.
@@ -484,7 +496,7 @@ Proof.
 Qed.
 
 (* ---------------- the hash has no history: it is a function of the current member tuple *)
-Notation hrun := (hrun leaf h).
+Notation hrun := (hrun leaf hp h).
 
 (* hashes taken along the way change nothing about the object *)
 Lemma hrun_members_ignore_hashes ops : forall l seen seen',
